@@ -1,11 +1,147 @@
 (** C16 — The table store behaves like a keyed map with timestamp-ordered scans.
-    This file only pins statements and prints their assumptions. *)
-From Coq Require Import List Arith PeanoNat.
-Import ListNotations.
-Require Import Verif.Base.Res Verif.Table.Model Verif.Table.MapSpec Verif.Table.Refine.
+    This file only pins statements and prints their assumptions.
 
+    Model: coq/Table/Model.v (physical SortedWritesTable: append-only rows with stale marks, hash
+    of row ids compared by row content, offsets, pending queues, rehash above the stale threshold;
+    DisplacedTable over the union-find translated from union-find/src/lib.rs).
+    Spec: coq/Table/MapSpec.v (a plain map key -> latest merged row). *)
+From Coq Require Import List Arith PeanoNat Sorted.
+Import ListNotations.
+Require Import Verif.Base.Res Verif.Table.Model Verif.Table.MapSpec Verif.Table.Refine Verif.Table.Displaced.
+Require Import Verif.Table.NoPanic.
+
+(** For EVERY sequence of stage_insert / stage_remove / merge / clear / read operations and every
+    merge function that respects the MergeFn contract, starting from the empty table: if the run
+    does not hit the table's own sort-order assertion, then get_row answers as the map does, a full
+    scan returns exactly the map's rows -- each live row once (distinct row ids, distinct keys),
+    stale (removed or superseded) rows never --, a constrained scan is the full scan filtered, len is
+    the number of live rows, and the pending queues are the spec's. *)
+Theorem c16_refines_map : forall c mf ops t,
+  mf_ok c mf -> run c mf empty ops = Ok t ->
+  let s := s_run c mf s_init ops in
+  (forall k, option_map snd (get c t k) = sm s k) /\
+  (forall r, In r (map snd (scan_all t)) <-> sm s (key_of c r) = Some r) /\
+  NoDup (map fst (scan_all t)) /\
+  NoDup (map (fun p => key_of c (snd p)) (scan_all t)) /\
+  (forall cs i r, In (i, r) (scan_cs t cs) <-> In (i, r) (scan_all t) /\ eval_cs cs r = true) /\
+  length (rows t) - stale t = length (scan_all t) /\
+  pins t = s_ins s /\ prem t = s_rem s.
+Proof. exact table_answers_as_map. Qed.
+Print Assumptions c16_refines_map.
+
+(** ... and the hypothesis "the run does not panic" is exactly the caller contract: if rows are
+    staged with non-decreasing sort values (timestamps never go back; no condition at all for a
+    table without sort column), EVERY op sequence runs to completion -- neither serial_insert's
+    sort-order assertion nor rehash's expect fires. *)
+Theorem c16_no_panic : forall c mf ops,
+  mf_ok c mf -> (forall sc, sortc c = Some sc -> wf_ops sc 0 ops) ->
+  exists t, run c mf empty ops = Ok t.
+Proof. exact run_nopanic_empty. Qed.
+Print Assumptions c16_no_panic.
+
+(** The offsets invariant in every reachable state of a table with sort column [sc]: offsets is
+    strictly increasing in both components, every entry (v, s) points inside the table and splits
+    the live rows (exactly those with a sort value below v lie before s), and every live sort value
+    has an entry. *)
+Theorem c16_offsets_inv : forall c mf ops t sc,
+  mf_ok c mf -> run c mf empty ops = Ok t -> sortc c = Some sc ->
+  StronglySorted (fun a b => fst a < fst b /\ snd a < snd b) (offs t) /\
+  (forall v s, In (v, s) (offs t) ->
+     s < length (rows t) /\
+     forall i r, live_at (rows t) i = Some r -> (i < s <-> col r sc < v)) /\
+  (forall i r, live_at (rows t) i = Some r -> In (col r sc) (map fst (offs t))).
+Proof. exact table_offsets_inv. Qed.
+Print Assumptions c16_offsets_inv.
+
+(** ... hence a timestamp-range subset is exact: whenever fast_subset answers (Eq/Lt/Le/Gt/Ge
+    against a constant on the sort column), the dense range it returns contains exactly the live
+    rows that satisfy the constraint, i.e. scanning it = scanning under the constraint. *)
+Theorem c16_fast_subset_exact : forall c mf ops t sc cn lo hi,
+  mf_ok c mf -> run c mf empty ops = Ok t ->
+  sortc c = Some sc -> fast_subset c t cn = Some (lo, hi) ->
+  (forall i r, In (i, r) (scan_all t) -> (lo <= i < hi <-> eval_c cn r = true)) /\
+  scan_range t lo hi = scan_cs t [cn].
+Proof. exact table_fast_subset_exact. Qed.
+Print Assumptions c16_fast_subset_exact.
+
+(** fast_subset only ever answers constraints on the sort column *)
+Theorem c16_fast_subset_only_sort : forall c t cn lo hi, fast_subset c t cn = Some (lo, hi) ->
+  exists sc, sortc c = Some sc /\
+    match cn with CEq _ _ => False | CEqC cl _ | CLt cl _ | CGt cl _ | CLe cl _ | CGe cl _ => cl = sc end.
+Proof. exact fast_subset_only_sort. Qed.
+Print Assumptions c16_fast_subset_only_sort.
+
+(** Compaction: in every reachable state rehash succeeds (its expect cannot fire), changes no
+    answer, bumps the major generation, and leaves exactly the live rows. *)
+Theorem c16_rehash_preserves : forall c mf ops t,
+  mf_ok c mf -> run c mf empty ops = Ok t ->
+  exists t', rehash c t = Ok t' /\
+    (forall k, option_map snd (get c t' k) = option_map snd (get c t k)) /\
+    (forall r, In r (map snd (scan_all t')) <-> In r (map snd (scan_all t))) /\
+    gen t' = S (gen t) /\ stale t' = 0 /\ length (rows t') = length (scan_all t).
+Proof. exact table_rehash_preserves. Qed.
+Print Assumptions c16_rehash_preserves.
+
+(** merge = do_delete; do_insert; then rehash exactly when stale > max(16, n/2) *)
+Theorem c16_merge_rehash_threshold : forall c mf t t',
+  merge c mf t = Ok t' ->
+  exists t2, do_insert c mf (do_delete c t) = Ok t2 /\
+    (stale t2 <= Nat.max 16 (length (rows t2) / 2) -> t' = t2) /\
+    (Nat.max 16 (length (rows t2) / 2) < stale t2 -> rehash c t2 = Ok t').
+Proof. exact merge_rehash_threshold. Qed.
+Print Assumptions c16_merge_rehash_threshold.
+
+(** clearing a non-empty table empties it, drops the pending queues and bumps the generation *)
+Theorem c16_clear_bumps : forall t, rows t <> [] ->
+  gen (clear t) = S (gen t) /\ rows (clear t) = [] /\ pins (clear t) = [] /\ prem (clear t) = [].
+Proof. exact clear_bumps. Qed.
+Print Assumptions c16_clear_bumps.
+
+(** the hypothesis [mf_ok] is satisfiable: every merge function the harness installs has it *)
+Theorem c16_merge_fns_ok : forall c m cur q r, mf_of c m cur q = Some r ->
+  key_of c r = key_of c q /\ (forall sc, sortc c = Some sc -> col r sc = col q sc).
+Proof. exact mf_of_ok. Qed.
+Print Assumptions c16_merge_fns_ok.
+
+(** DisplacedTable, for EVERY sequence of stage_insert / merge / clear / reads (after the repair
+    of finding F8, clear included): if the run does not hit the increasing-timestamp assertion,
+    get_row never panics and answers as the map  displaced id -> (id, canonical id, timestamp);
+    every (constrained) scan never panics and returns exactly the matching rows of the map, each
+    displaced id once. *)
+Theorem c16_displaced : forall ops d,
+  drun dempty ops = Ok d ->
+  let s := ds_run ds_init ops in
+  (forall k, exists o, dget d k = Ok o /\ option_map snd o = ds_get s k) /\
+  (forall cs, exists l, dscan_ids d (seq 0 (length (disp d))) cs = Ok l /\
+     (forall r, In r (map snd l) <-> eval_cs cs r = true /\ exists k, ds_get s k = Some r) /\
+     NoDup (map (fun p => col (snd p) 0) l)) /\
+  dpend d = ds_pend s.
+Proof. exact displaced_answers_as_map. Qed.
+Print Assumptions c16_displaced.
+
+(** the observing run evaluated by the correspondence check is built from the proved [step] and
+    the reads the theorems above are about *)
+Theorem c16_run_obs_step : forall c mf t o tl t', step c mf t o = Ok t' ->
+  run_obs c mf t (o :: tl) = (match read c t o with Some b => [b] | None => [] end) ++ run_obs c mf t' tl.
+Proof. exact run_obs_step. Qed.
+Print Assumptions c16_run_obs_step.
+
+(** non-vacuity: concrete non-trivial runs *)
 Example c16_example :
   run_obs (mkCfg 1 (Some 2)) (mf_of (mkCfg 1 (Some 2)) MNew) empty
     [OIns [1;10;0]; OIns [2;20;0]; OMerge; OGet [1]; OIns [1;11;1]; ORem [2]; OMerge; OScan; OFast (CGe 2 1)]
   = [[[0; 1; 10; 0]]; [[2; 1; 11; 1]]; [[1]; [2; 1; 11; 1]]].
+Proof. vm_compute. reflexivity. Qed.
+
+(** 18 writes to one key in one merge leave 17 stale rows > max(16, 18/2): the merge compacts *)
+Example c16_example_rehash :
+  exists t, run (mkCfg 1 None) (mf_of (mkCfg 1 None) MAlways) empty
+              (map (fun v => OIns [1; v]) (seq 0 18) ++ [OMerge]) = Ok t
+    /\ rows t = [Some [1; 17]] /\ gen t = 1 /\ stale t = 0 /\ hash t = [0].
+Proof. eexists. vm_compute. repeat split. Qed.
+
+(** the replay of finding F8, on the repaired model: after clear the old key is absent *)
+Example c16_example_f8 :
+  drun_obs dempty [DIns 5 1 0; DIns 6 2 0; DMerge; DGet 5; DClear; DGet 5; DIns 7 3 1; DMerge; DGet 5; DScan]
+  = [[[0; 5; 1; 0]]; []; []; [[0; 7; 3; 1]]].
 Proof. vm_compute. reflexivity. Qed.
